@@ -253,6 +253,26 @@ def run_mtf(part, unit):
                     part.violation(PID, 'perfect-lens-mtf-is-airy', 'FFTMTF.mtf', cond, dict(det, curve=nm, index=i), observed=float(got[i]),
                                    expected=float(dl[i]), tol=2.0 / nr)
         part.outcome(unit['lens'], Hy, nr, G, np.asarray(m.mtf[0][0], float)[:6])
+    # ---- the analysed wavelength need not be the primary one: dispersion-free lenses with the primary elsewhere ---------------------
+    if unit['lens'] in ('paraboloid', 'relay') and Hy == 0.0:
+        import copy as _copy
+        sp2 = _copy.deepcopy(sp)
+        sp2['waves'] = [[0.45, True], [0.5876, False], [0.70, False]]
+        o2 = LZ.build(sp2)
+        part.states += 1
+        rows_p = prescription.rows(sp2, lambda mm, prev: LZ.ref_index(mm, 0.5876, prev))
+        ys_, us_, _ = abcd.marginal(rows_p, tuple(sp2['ap']))
+        fno_w = 1.0 / (2.0 * rows_p[-1]['n_post'] * abs(us_[-1]))
+        for wq in (0.5876, 0.70, 0.45):
+            m2 = FFTMTF(o2, fields=[(0.0, 0.0)], wavelength=wq, num_rays=32, grid_size=128)
+            part.transitions += 1
+            part.evals += 1
+            cutoff = 1.0 / (wq * 1e-3 * fno_w)
+            cond2 = f"object={'infinite' if math.isinf(sp['obj']) else 'finite'},wavelength={'primary' if wq == 0.45 else 'non-primary'}"
+            part.count('cmp:cutoff')
+            if abs(m2.max_freq - cutoff) > 1e-8 * cutoff:
+                part.violation(PID, 'mtf-cutoff-is-1/(lambda x working F-number)', 'FFTMTF.max_freq', cond2, dict(lens=unit['lens'], wavelength=wq, variant=v),
+                               observed=float(m2.max_freq), expected=cutoff, tol=1e-8)
     # ---- geometric MTF: |FT of the spot line spread| x diffraction factor --------------------------------------------------
     gm = GeometricMTF(o, fields=[(0.0, Hy)], wavelength=w, num_rays=24, distribution='uniform', num_points=64)
     part.transitions += 1
